@@ -176,6 +176,15 @@ def _do(F, d, E, sink):
             return F.schema.to_parsing_canonical_form(p)
         finally:
             shutil.rmtree(tmp, ignore_errors=True)
+    if op == "load_dir":
+        base = d["dir"]
+        if d.get("ordered"):
+            p = F.schema.load_schema_ordered([os.path.join(base, n + ".avsc") for n in d["ordered"]])
+        else:
+            p = F.schema.load_schema(os.path.join(base, d["top"] + ".avsc"))
+        if d.get("out"):
+            E[d["out"]] = p
+        return F.schema.to_parsing_canonical_form(p)
     if op == "is_avro":
         return F.is_avro(io.BytesIO(_get(E, d["bytes"])))
     raise ValueError(f"unknown op {op}")
